@@ -1103,84 +1103,435 @@ theorem resetOne_true_props (it : Item) :
   obtain ⟨i, st, a⟩ := it
   cases st <;> cases a <;> simp [resetOne, Item.completed]
 
-/-- after `_reset_actions(reset=False)` the candidates are exactly the indexes that were executed
-    and have no accepted SUCCESS -/
-theorem rerun_false_candidates (s : WI) (i : Nat) :
-    i ∈ candidates (rerunPrepared s false) ↔ (executed s i = true ∧ succeeded s i = false) := by
-  have hA : i ∈ acceptedIdx (rerunPrepared s false) ↔ succeeded s i = true := by
-    unfold acceptedIdx succeeded
-    rw [rerunPrepared_items, resetActions_eq, mem_idx_filter_map, List.any_eq_true]
-    constructor
-    · rintro ⟨it, hit, hp, hi⟩
-      obtain ⟨h1, h2, _⟩ := resetOne_false_props it
-      refine ⟨it, hit, ?_⟩
-      rw [h1] at hi; rw [h2] at hp
-      simp [hi, hp]
-    · rintro ⟨it, hit, hp⟩
-      obtain ⟨h1, h2, _⟩ := resetOne_false_props it
-      simp only [Bool.and_eq_true, beq_iff_eq] at hp
-      refine ⟨it, hit, ?_, ?_⟩
-      · rw [h2]; simp [hp.2]
-      · rw [h1]; exact hp.1
-  have hU : i ∈ unacceptedIdx (rerunPrepared s false) ↔
-      ∃ it ∈ s.items, it.index = i ∧ it.completed = true ∧ (it.accepted && it.state == .success) = false := by
-    unfold unacceptedIdx
-    rw [rerunPrepared_items, resetActions_eq, mem_idx_filter_map]
-    constructor
-    · rintro ⟨it, hit, hp, hi⟩
-      obtain ⟨h1, _, h3⟩ := resetOne_false_props it
-      rw [h1] at hi; rw [h3] at hp
-      simp only [Bool.and_eq_true, Bool.not_eq_true'] at hp
-      exact ⟨it, hit, hi, hp.1, hp.2⟩
-    · rintro ⟨it, hit, hi, hc, hn⟩
-      obtain ⟨h1, _, h3⟩ := resetOne_false_props it
-      refine ⟨it, hit, ?_, ?_⟩
-      · rw [h3]; simp [hc, hn]
-      · rw [h1]; exact hi
-  simp only [candidates, mem_sortDedup, List.mem_filter, List.contains_eq_mem, Bool.not_eq_true',
-    decide_eq_false_iff_not]
-  rw [hU, hA]
+theorem mem_unacceptedIdx {s : WI} {i : Nat} :
+    i ∈ unacceptedIdx s ↔ ∃ it ∈ s.items, it.index = i ∧ it.accepted = false ∧ it.completed = true := by
+  simp only [unacceptedIdx, List.mem_map, List.mem_filter, Bool.and_eq_true, Bool.not_eq_true']
   constructor
-  · rintro ⟨⟨it, hit, hi, hc, _⟩, hns⟩
-    refine ⟨?_, by simpa using hns⟩
-    unfold executed
-    exact List.any_eq_true.mpr ⟨it, hit, by simp [hi, hc]⟩
-  · rintro ⟨hex, hns⟩
-    refine ⟨?_, by simp [hns]⟩
-    obtain ⟨it, hit, hp⟩ := List.any_eq_true.mp hex
-    simp only [Bool.and_eq_true, beq_iff_eq] at hp
-    refine ⟨it, hit, hp.1, hp.2, ?_⟩
-    rw [Bool.eq_false_iff]
-    intro hacc
-    rw [Bool.eq_false_iff] at hns
-    apply hns
-    unfold succeeded
-    exact List.any_eq_true.mpr ⟨it, hit, by simp [hp.1]; simpa using hacc⟩
+  · rintro ⟨it, ⟨hit, ha, hc⟩, rfl⟩; exact ⟨it, hit, rfl, ha, hc⟩
+  · rintro ⟨it, hit, rfl, ha, hc⟩; exact ⟨it, ⟨hit, ha, hc⟩, rfl⟩
 
-/-- the indexes a rerun starts are candidates or lie beyond the largest candidate -/
-theorem mem_indices_cases {s : WI} {i : Nat} (h : i ∈ indices s) :
-    i ∈ candidates s ∨ (∃ m, (candidates s).getLast? = some m ∧ m < s.count - 1 ∧ m < i ∧ i < s.count) ∨
-    (candidates s = [] ∧ nextStartIndex s ≤ i ∧ i < s.count) := by
-  unfold indices at h
-  split at h
-  · rename_i m hm
-    rw [List.mem_append] at h
-    rcases h with h | h
-    · left; exact h
-    · right; left
-      split at h
-      · rename_i hlt
-        simp only [rangeFromTo, List.mem_range'_1] at h
-        exact ⟨m, hm, hlt, by omega, by omega⟩
-      · simp at h
-  · rename_i hn
-    right; right
-    simp only [rangeFromTo, List.mem_range'_1] at h
-    refine ⟨by simpa using hn, by omega, by omega⟩
+theorem mem_takenIdx {s : WI} {i : Nat} :
+    i ∈ takenIdx s ↔ ∃ it ∈ s.items, it.index = i ∧ (it.accepted = true ∨ it.state = .running) := by
+  simp only [takenIdx, List.mem_map, List.mem_filter, Bool.or_eq_true, beq_iff_eq]
+  constructor
+  · rintro ⟨it, ⟨hit, h⟩, rfl⟩; exact ⟨it, hit, rfl, h⟩
+  · rintro ⟨it, hit, rfl, h⟩; exact ⟨it, ⟨hit, h⟩, rfl⟩
+
+theorem mem_candidates {s : WI} {i : Nat} :
+    i ∈ candidates s ↔ i ∈ unacceptedIdx s ∧ i ∉ takenIdx s := by
+  simp [candidates, mem_sortDedup, List.mem_filter]
+
+/-- after `_reset_actions(reset=False)` a candidate is an index that was executed and has no
+    accepted SUCCESS -/
+theorem rerun_false_candidate_failed (s : WI) (i : Nat) (h : i ∈ candidates (rerunPrepared s false)) :
+    executed s i = true ∧ succeeded s i = false := by
+  obtain ⟨hu, hn⟩ := mem_candidates.mp h
+  obtain ⟨it', hit', hidx, _, hc⟩ := mem_unacceptedIdx.mp hu
+  rw [rerunPrepared_items, resetActions_eq] at hit'
+  obtain ⟨it, hit, rfl⟩ := List.mem_map.mp hit'
+  constructor
+  · unfold executed
+    refine List.any_eq_true.mpr ⟨it, hit, ?_⟩
+    have h1 := (resetOne_false_props it).1
+    have : (resetOne false it).completed = it.completed := by
+      obtain ⟨i0, st, a⟩ := it
+      cases st <;> cases a <;> simp [resetOne, Item.completed]
+    rw [h1] at hidx; rw [this] at hc
+    simp [hidx, hc]
+  · rw [Bool.eq_false_iff]
+    intro hs
+    obtain ⟨it1, hit1, h1⟩ := List.any_eq_true.mp hs
+    simp only [Bool.and_eq_true, beq_iff_eq] at h1
+    apply hn
+    refine mem_takenIdx.mpr ⟨resetOne false it1, ?_, ?_, ?_⟩
+    · rw [rerunPrepared_items, resetActions_eq]; exact List.mem_map.mpr ⟨it1, hit1, rfl⟩
+    · rw [(resetOne_false_props it1).1]; exact h1.1
+    · left
+      obtain ⟨i0, st, a⟩ := it1
+      simp at h1
+      simp [resetOne, h1.2.1, h1.2.2]
 
 theorem mem_takeCap {cap : Option Nat} {l : List Nat} {i : Nat} (h : i ∈ takeCap cap l) : i ∈ l := by
   cases cap with
   | none => exact h
   | some k => exact List.mem_of_mem_take h
+
+/-! ### every index has at most one execution that counts or may still count (fix 494951d1) -/
+
+/-- the predicate of `liveCount`, `_get_next_start_index` and `taken` -/
+def live (it : Item) : Bool := it.accepted || it.state == .running
+
+theorem liveCount_eq (s : WI) (i : Nat) :
+    liveCount s i = s.items.countP (fun it => it.index == i && live it) := rfl
+
+theorem liveCount_eq_zero {s : WI} {i : Nat} : liveCount s i = 0 ↔ i ∉ takenIdx s := by
+  rw [liveCount_eq, List.countP_eq_zero, mem_takenIdx]
+  constructor
+  · rintro h ⟨it, hit, hidx, hl⟩
+    apply h it hit
+    rcases hl with hl | hl <;> simp [live, hidx, hl]
+  · intro h it hit hp
+    simp only [live, Bool.and_eq_true, beq_iff_eq, Bool.or_eq_true] at hp
+    exact h ⟨it, hit, hp.1, hp.2⟩
+
+theorem countP_lt_succ (l : List Item) (p : Item → Bool) (m : Nat) :
+    l.countP (fun it => decide (it.index < m + 1) && p it)
+      = l.countP (fun it => decide (it.index < m) && p it) + l.countP (fun it => it.index == m && p it) := by
+  induction l with
+  | nil => simp
+  | cons a l ih =>
+    simp only [List.countP_cons, ih]
+    by_cases h1 : a.index < m
+    · have h2 : a.index < m + 1 := by omega
+      have h3 : ¬ a.index = m := by omega
+      simp [h1, h2, h3]; omega
+    · by_cases h3 : a.index = m
+      · have h2 : a.index < m + 1 := by omega
+        simp [h1, h2, h3]; omega
+      · have h2 : ¬ a.index < m + 1 := by omega
+        simp [h1, h2, h3]
+
+/-- if every index below `m` has exactly one live execution, there are `m'` live executions with
+    an index below `m' ≤ m` -/
+theorem countP_live_below {l : List Item} {m : Nat}
+    (hone : ∀ i, i < m → l.countP (fun it => it.index == i && live it) = 1) :
+    ∀ m', m' ≤ m → l.countP (fun it => decide (it.index < m') && live it) = m' := by
+  intro m'
+  induction m' with
+  | zero => intro _; simp
+  | succ k ih =>
+    intro hk
+    rw [countP_lt_succ, ih (by omega), hone k (by omega)]
+
+/-- indexes of all executions -/
+def allIdx (s : WI) : List Nat := s.items.map (·.index)
+
+/-- Invariant of ALL histories (reruns and retries included) of the fixed code. -/
+structure LiveInv (s : WI) : Prop where
+  uniq : ∀ i, liveCount s i ≤ 1
+  front : ∃ m, m ≤ s.specCount ∧ (∀ x ∈ allIdx s, x < m) ∧ (∀ i, i < m → i ∈ allIdx s)
+  cnt : s.prepared = true → s.count = s.specCount
+
+theorem liveInv_init (n : Nat) (c : Option Nat) (r : Nat) : LiveInv (init n c r) := by
+  constructor
+  · intro i; simp [init, liveCount]
+  · exact ⟨0, by simp [init, allIdx]⟩
+  · simp [init]
+
+/-- an index that occurs is a candidate or taken -/
+theorem occurs_cases {s : WI} {i : Nat} (h : i ∈ allIdx s) : i ∈ candidates s ∨ i ∈ takenIdx s := by
+  by_cases ht : i ∈ takenIdx s
+  · right; exact ht
+  · left
+    refine mem_candidates.mpr ⟨?_, ht⟩
+    obtain ⟨it, hit, hidx⟩ := List.mem_map.mp h
+    refine mem_unacceptedIdx.mpr ⟨it, hit, hidx, ?_, ?_⟩
+    · cases ha : it.accepted with
+      | false => rfl
+      | true => exact absurd (mem_takenIdx.mpr ⟨it, hit, hidx, Or.inl ha⟩) ht
+    · cases hs : it.state with
+      | running => exact absurd (mem_takenIdx.mpr ⟨it, hit, hidx, Or.inr hs⟩) ht
+      | _ => simp [Item.completed, hs]
+
+theorem candidates_occur {s : WI} {i : Nat} (h : i ∈ candidates s) : i ∈ allIdx s := by
+  obtain ⟨it, hit, hidx, _⟩ := mem_unacceptedIdx.mp (mem_candidates.mp h).1
+  exact List.mem_map.mpr ⟨it, hit, hidx⟩
+
+theorem taken_occur {s : WI} {i : Nat} (h : i ∈ takenIdx s) : i ∈ allIdx s := by
+  obtain ⟨it, hit, hidx, _⟩ := mem_takenIdx.mp h
+  exact List.mem_map.mpr ⟨it, hit, hidx⟩
+
+/-- with no candidate left the number of live executions is the frontier -/
+theorem nextStartIndex_eq_front {s : WI} (hu : ∀ i, liveCount s i ≤ 1) {m : Nat}
+    (hlt : ∀ x ∈ allIdx s, x < m) (hall : ∀ i, i < m → i ∈ allIdx s) (hc : candidates s = []) :
+    nextStartIndex s = m := by
+  have hone : ∀ i, i < m → s.items.countP (fun it => it.index == i && live it) = 1 := by
+    intro i hi
+    have h1 := hu i
+    rw [liveCount_eq] at h1
+    have h2 : i ∈ takenIdx s := by
+      rcases occurs_cases (hall i hi) with h | h
+      · rw [hc] at h; simp at h
+      · exact h
+    have h3 : liveCount s i ≠ 0 := fun h => (liveCount_eq_zero.mp h) h2
+    rw [liveCount_eq] at h3
+    omega
+  have := countP_live_below hone m (Nat.le_refl m)
+  rw [← this]
+  unfold nextStartIndex
+  apply List.countP_congr
+  intro it hit
+  have : it.index < m := hlt _ (List.mem_map.mpr ⟨it, hit, rfl⟩)
+  simp [live, this]
+
+theorem filter_range'_suffix (p : Nat → Bool) (a b n : Nat) (hab : a ≤ b) (hbn : b ≤ a + n)
+    (hf : ∀ i, a ≤ i → i < b → p i = false) (ht : ∀ i, b ≤ i → i < a + n → p i = true) :
+    (List.range' a n).filter p = List.range' b (a + n - b) := by
+  induction n generalizing a with
+  | zero =>
+    have : b = a := by omega
+    subst this; simp
+  | succ n ih =>
+    by_cases hEq : a = b
+    · subst hEq
+      have : a + (n + 1) - a = n + 1 := by omega
+      rw [this, List.filter_eq_self]
+      intro i hi
+      rw [List.mem_range'_1] at hi
+      exact ht i hi.1 hi.2
+    · rw [List.range'_succ, List.filter_cons]
+      have : p a = false := hf a (Nat.le_refl a) (by omega)
+      simp only [this, Bool.false_eq_true, if_false]
+      rw [ih (a + 1) (by omega) (by omega) (fun i h1 h2 => hf i (by omega) h2)
+        (fun i h1 h2 => ht i h1 (by omega))]
+      congr 1; omega
+
+/-- the list of indexes `_get_next_indexes` cuts to the capacity: the candidates (indexes below the
+    frontier that are neither accepted nor in progress) followed by the indexes never started -/
+theorem indices_eq {s : WI} (hu : ∀ i, liveCount s i ≤ 1) {m : Nat} (hm : m ≤ s.count)
+    (hlt : ∀ x ∈ allIdx s, x < m) (hall : ∀ i, i < m → i ∈ allIdx s) :
+    indices s = candidates s ++ List.range' m (s.count - m) := by
+  unfold indices
+  split
+  · rename_i M hM
+    congr 1
+    have hMc : M ∈ candidates s := List.mem_of_getLast? hM
+    have hMm : M < m := hlt M (candidates_occur hMc)
+    have hmax : ∀ x ∈ candidates s, x ≤ M := fun x hx => le_getLast_of_sorted (sortDedup_sorted _) hM hx
+    split
+    · rename_i hlt1
+      unfold rangeFromTo
+      have := filter_range'_suffix (fun i => !(takenIdx s).contains i) (M + 1) m (s.count - (M + 1))
+        (by omega) (by omega)
+        (fun i h1 h2 => by
+          have hocc := hall i h2
+          rcases occurs_cases hocc with h | h
+          · have := hmax i h; omega
+          · simp [h])
+        (fun i h1 h2 => by
+          have : i ∉ takenIdx s := fun h => by have := hlt i (taken_occur h); omega
+          simp [this])
+      rw [this]
+      congr 1; omega
+    · have : s.count - m = 0 := by omega
+      rw [this]; simp
+  · rename_i hnone
+    have hc : candidates s = [] := by simpa using hnone
+    rw [hc, nextStartIndex_eq_front hu hlt hall hc]
+    simp [rangeFromTo]
+
+theorem liveInv_map {s s' : WI} (f : Item → Item) (hitems : s'.items = s.items.map f)
+    (hidx : ∀ it, (f it).index = it.index) (hlive : ∀ it, live (f it) = true → live it = true)
+    (hspec : s'.specCount = s.specCount) (hcnt : s'.prepared = true → s'.count = s'.specCount)
+    (hL : LiveInv s) : LiveInv s' := by
+  constructor
+  · intro i
+    refine Nat.le_trans ?_ (hL.uniq i)
+    rw [liveCount_eq, liveCount_eq, hitems, List.countP_map]
+    apply List.countP_mono_left
+    intro it _ hp
+    simp only [Function.comp, Bool.and_eq_true, beq_iff_eq] at hp ⊢
+    exact ⟨by rw [← hidx it]; exact hp.1, hlive it hp.2⟩
+  · have : allIdx s' = allIdx s := by
+      unfold allIdx
+      rw [hitems, List.map_map]
+      congr 1
+      funext it; exact hidx it
+    rw [this, hspec]; exact hL.front
+  · exact hcnt
+
+theorem liveInv_same_items {s s' : WI} (hitems : s'.items = s.items) (hspec : s'.specCount = s.specCount)
+    (hcnt : s'.prepared = true → s'.count = s'.specCount) (hL : LiveInv s) : LiveInv s' :=
+  liveInv_map id (by simp [hitems]) (fun _ => rfl) (fun _ h => h) hspec hcnt hL
+
+theorem complete_items (s : WI) (st : TSt) :
+    (complete s st).items = s.items ∨ (complete s st).items = invalidateAll s.items := by
+  unfold complete
+  split
+  · left; rfl
+  · cases st <;> simp
+    split <;> simp
+
+theorem liveInv_complete {s : WI} (st : TSt) (hL : LiveInv s) : LiveInv (complete s st) := by
+  obtain ⟨f1, f2, f3, f4, f5, f6, f7, f8, f9⟩ := complete_fields s st
+  have hcnt : (complete s st).prepared = true → (complete s st).count = (complete s st).specCount := by
+    rw [f3, f6, f7]; exact hL.cnt
+  rcases complete_items s st with h | h
+  · exact liveInv_same_items h f7 hcnt hL
+  · exact liveInv_map (fun it => { it with accepted := false }) h (fun _ => rfl)
+      (fun it hl => by simp [live] at hl ⊢; right; exact hl) f7 hcnt hL
+
+theorem takeCap_append_range (cap : Option Nat) (cs : List Nat) (m K : Nat) :
+    ∃ cs' k, takeCap cap (cs ++ List.range' m K) = cs' ++ List.range' m k ∧ k ≤ K ∧
+      (∀ x ∈ cs', x ∈ cs) ∧ (cs.Pairwise (· < ·) → cs'.Pairwise (· < ·)) := by
+  cases cap with
+  | none => exact ⟨cs, K, rfl, Nat.le_refl _, fun _ h => h, fun h => h⟩
+  | some c =>
+    refine ⟨cs.take c, min (c - cs.length) K, ?_, Nat.min_le_right _ _, fun x hx => List.mem_of_mem_take hx,
+      fun h => h.sublist (List.take_sublist _ _)⟩
+    simp [takeCap, List.take_append, take_range'']
+
+theorem liveCount_append_new (s : WI) (idxs : List Nat) (cap : Option Nat) (i : Nat) :
+    liveCount { s with items := s.items ++ idxs.map (fun j => { index := j, state := .running, accepted := false }),
+                       capacity := cap } i
+      = liveCount s i + idxs.count i := by
+  simp only [liveCount, List.countP_append, List.countP_map]
+  congr 1
+  induction idxs with
+  | nil => simp
+  | cons a l ih =>
+    simp only [List.countP_cons, List.count_cons, ih, Function.comp]
+    by_cases h : a = i <;> simp [h]
+
+theorem liveInv_scheduleBody {s : WI} (hL : LiveInv s) (hp : s.prepared = true) :
+    LiveInv (scheduleBody s) := by
+  unfold scheduleBody
+  simp only []
+  split
+  · exact liveInv_complete .success hL
+  · obtain ⟨m, hm, hlt, hall⟩ := hL.front
+    have hcount := hL.cnt hp
+    have hidx := indices_eq hL.uniq (by omega) hlt hall
+    obtain ⟨cs', k, htake, hk, hsub, hpw⟩ :=
+      takeCap_append_range s.capacity (candidates s) m (s.count - m)
+    have hni : nextIndexes s = cs' ++ List.range' m k := by
+      unfold nextIndexes; rw [hidx]; exact htake
+    have hcs_lt : ∀ x ∈ cs', x < m := fun x hx => hlt x (candidates_occur (hsub x hx))
+    have hnodup : (nextIndexes s).Nodup := by
+      rw [hni, List.nodup_append]
+      refine ⟨(hpw (sortDedup_sorted _)).imp (fun h => Nat.ne_of_lt h), List.nodup_range', ?_⟩
+      intro a ha b hb
+      have := hcs_lt a ha
+      rw [List.mem_range'_1] at hb
+      omega
+    have hnot : ∀ x ∈ nextIndexes s, x ∉ takenIdx s := by
+      intro x hx
+      rw [hni, List.mem_append] at hx
+      rcases hx with hx | hx
+      · exact (mem_candidates.mp (hsub x hx)).2
+      · rw [List.mem_range'_1] at hx
+        intro ht
+        have := hlt x (taken_occur ht)
+        omega
+    constructor
+    · intro i
+      rw [liveCount_append_new]
+      have hc := (List.nodup_iff_count.mp hnodup) i
+      by_cases hin : i ∈ nextIndexes s
+      · have := liveCount_eq_zero.mpr (hnot i hin)
+        omega
+      · have : (nextIndexes s).count i = 0 := List.count_eq_zero.mpr hin
+        have := hL.uniq i
+        omega
+    · refine ⟨m + k, by show m + k ≤ s.specCount; omega, ?_, ?_⟩
+      · intro x hx
+        simp only [allIdx, List.map_append, List.map_map, List.mem_append] at hx
+        rcases hx with hx | hx
+        · have := hlt x hx; omega
+        · have hx' : x ∈ nextIndexes s := by
+            simpa [Function.comp_def] using hx
+          rw [hni, List.mem_append] at hx'
+          rcases hx' with h | h
+          · have := hcs_lt x h; omega
+          · rw [List.mem_range'_1] at h; omega
+      · intro i hi
+        simp only [allIdx, List.map_append, List.map_map, List.mem_append]
+        by_cases him : i < m
+        · left; exact hall i him
+        · right
+          have : i ∈ nextIndexes s := by
+            rw [hni, List.mem_append]; right
+            rw [List.mem_range'_1]; omega
+          simpa [Function.comp_def] using this
+    · intro _; exact hcount
+
+theorem liveInv_scheduleActions {s : WI} (hL : LiveInv s) : LiveInv (scheduleActions s) := by
+  unfold scheduleActions
+  have hprep : LiveInv (prepare s) ∧ (prepare s).prepared = true := by
+    unfold prepare
+    split
+    · rename_i h; exact ⟨hL, h⟩
+    · exact ⟨liveInv_same_items (s := s) rfl rfl (fun _ => rfl) hL, rfl⟩
+  exact liveInv_scheduleBody hprep.1 hprep.2
+
+theorem countP_live_setResult {l : List Item} {pos : Nat} {it : Item} {o : Outcome} (i : Nat)
+    (h : l[pos]? = some it) (hr : it.state = .running) :
+    (setResult l pos o).countP (fun x => x.index == i && live x)
+      = l.countP (fun x => x.index == i && live x) := by
+  induction l generalizing pos with
+  | nil => simp at h
+  | cons a l ih =>
+    cases pos with
+    | zero =>
+      simp at h
+      subst h
+      simp [setResult, List.countP_cons, live, hr]
+    | succ p =>
+      simp at h
+      simp only [setResult, List.countP_cons, ih h]
+
+theorem resetOne_live (reset : Bool) (it : Item) : live (resetOne reset it) = true → live it = true := by
+  obtain ⟨i, st, a⟩ := it
+  cases reset <;> cases st <;> cases a <;> simp [resetOne, live]
+
+theorem resetOne_index (reset : Bool) (it : Item) : (resetOne reset it).index = it.index := by
+  unfold resetOne; split <;> rfl
+
+theorem liveInv_step {s : WI} (hL : LiveInv s) (op : Op) : LiveInv (step s op) := by
+  cases op with
+  | start =>
+    simp only [step]; split
+    · exact liveInv_scheduleActions (liveInv_same_items (s := s) rfl rfl hL.cnt hL)
+    · exact hL
+  | result pos o =>
+    simp only [step]; split
+    · rename_i it hit
+      split
+      · rename_i hr
+        constructor
+        · intro i
+          have := hL.uniq i
+          rw [liveCount_eq] at this ⊢
+          show (setResult s.items pos o).countP _ ≤ 1
+          rw [countP_live_setResult i hit hr]; exact this
+        · have : allIdx { s with items := setResult s.items pos o, unhandled := s.unhandled + 1 } = allIdx s := by
+            simp [allIdx, map_index_setResult]
+          rw [this]; exact hL.front
+        · exact hL.cnt
+      · exact hL
+    · exact hL
+  | handled =>
+    simp only [step]; split
+    · exact hL
+    · have h0 : LiveInv { s with unhandled := s.unhandled - 1 } := liveInv_same_items (s := s) rfl rfl hL.cnt hL
+      unfold onActionComplete
+      split
+      · exact h0
+      · obtain ⟨g1, g2, g3, g4, g5, g6, g7⟩ := increaseCapacity_fields { s with unhandled := s.unhandled - 1 }
+        have h1 : LiveInv (increaseCapacity { s with unhandled := s.unhandled - 1 }) :=
+          liveInv_same_items g1 g5 (by rw [g3, g4, g5]; exact h0.cnt) h0
+        simp only []
+        split
+        · exact liveInv_complete _ h1
+        · split
+          · exact liveInv_scheduleActions h1
+          · exact h1
+  | rerun reset =>
+    simp only [step]; split
+    · apply liveInv_scheduleActions
+      exact liveInv_map (s := s) (resetOne reset) (resetActions_eq reset s.items) (resetOne_index reset)
+        (resetOne_live reset) rfl (fun h => by simp at h) hL
+    · exact hL
+  | «continue» =>
+    simp only [step]; split
+    · apply liveInv_scheduleActions
+      exact liveInv_map (s := s) (resetOne false) (resetActions_eq false s.items) (resetOne_index false)
+        (resetOne_live false) rfl hL.cnt hL
+    · exact hL
+
+theorem liveInv_run {s : WI} (hL : LiveInv s) (ops : List Op) : LiveInv (run s ops) := by
+  induction ops generalizing s with
+  | nil => exact hL
+  | cons o os ih => exact ih (liveInv_step hL o)
 
 end Mistral.WithItems
